@@ -185,6 +185,27 @@ func buildProcNet(p *core.Prog, fi *core.FuncInfo) *procNet {
 					}
 				}
 			case *ast.RangeStmt:
+				// for _, ch := range chans: the value variable stands for an element of the family
+				if t := info.TypeOf(s.X); t != nil && s.Value != nil {
+					var elem types.Type
+					switch u := t.Underlying().(type) {
+					case *types.Slice:
+						elem = u.Elem()
+					case *types.Array:
+						elem = u.Elem()
+					case *types.Map:
+						elem = u.Elem()
+					}
+					if elem != nil && isChanType(elem) {
+						if id, ok := s.Value.(*ast.Ident); ok {
+							if o := info.Defs[id]; o != nil {
+								if k := pr.key(info, s.X); k != "" {
+									pr.bind[o] = k + "[*]"
+								}
+							}
+						}
+					}
+				}
 				if isChanType(info.TypeOf(s.X)) {
 					if k := pr.key(info, s.X); k != "" {
 						pr.Ranges[k] = s.Pos()
